@@ -880,6 +880,9 @@ namespace pika::threads::detail {
     {
         pika::util::yield_while(
             []() {
+#if defined(PIKA_VERIF)
+                PIKA_VERIF_POINT(503, nullptr);    // wait() samples the activity count
+#endif
                 return pika::threads::detail::get_global_activity_count() >
                     (threads::detail::get_self_ptr() != nullptr ? 1 : 0);
             },
